@@ -1354,15 +1354,16 @@ impl GRLParser {
             return self.parse_array_literal(trimmed);
         }
 
-        // String literal
-        if trimmed.len() >= 2 {
-            let unquoted = &trimmed[1..trimmed.len() - 1];
-            if (trimmed.starts_with('"') && trimmed.ends_with('"') && !unquoted.contains('"'))
-                || (trimmed.starts_with('\'')
-                    && trimmed.ends_with('\'')
-                    && !unquoted.contains('\''))
+        // String literal (strip the quotes only after checking them: slicing
+        // `[1..len - 1]` first would split a multi-byte first or last character)
+        for quote in ['"', '\''] {
+            if let Some(unquoted) = trimmed
+                .strip_prefix(quote)
+                .and_then(|rest| rest.strip_suffix(quote))
             {
-                return Ok(Value::String(unquoted.to_string()));
+                if !unquoted.contains(quote) {
+                    return Ok(Value::String(unquoted.to_string()));
+                }
             }
         }
 
